@@ -105,6 +105,21 @@ class World:
             raise RuntimeError("PGWrapper used outside a simulated rank")
         return w.tags["rank"]
 
+    def grank(self, pg) -> int:
+        """rank index of the calling simulated rank IN the group `pg`: a group object carrying `_verif_perm` (list: world
+        rank -> group rank, a permutation that fixes 0 - torch.distributed's src arguments are global ranks) numbers the
+        ranks differently from the default group; everything else is numbered like the default group"""
+        perm = getattr(pg, "_verif_perm", None)
+        return perm[self.rank()] if perm else self.rank()
+
+    @staticmethod
+    def _inv(pg, W):
+        perm = getattr(pg, "_verif_perm", None) or list(range(W))
+        inv = [0] * W
+        for q, g in enumerate(perm):
+            inv[g] = q
+        return perm, inv
+
     def event(self, kind, **kw):
         w = self.sched.current()
         e = {"n": len(self.events), "rank": w.tags["rank"] if w else None, "thread": w.name if w else None, "kind": kind}
@@ -167,18 +182,19 @@ class World:
 
         def bcast(self, obj_list, src=0):
             res = world.collective("broadcast_object_list", list(obj_list), pg=getattr(self, "pg", None))
-            obj_list[:] = res[src]
+            obj_list[:] = res[world._inv(getattr(self, "pg", None), world.W)[1][src]]
 
         def allgather(self, obj_list, obj):
             res = world.collective("all_gather_object", obj, pg=getattr(self, "pg", None))
+            perm, _ = world._inv(getattr(self, "pg", None), world.W)
             for r in range(world.W):
-                obj_list[r] = res[r]
+                obj_list[perm[r]] = res[r]
 
         def scatter(self, output_list, input_list, src=0):
             res = world.collective("scatter_object_list", input_list, pg=getattr(self, "pg", None))
-            output_list[0] = res[src][world.rank()]
+            output_list[0] = res[world._inv(getattr(self, "pg", None), world.W)[1][src]][world.grank(getattr(self, "pg", None))]
 
-        PGWrapper.get_rank = lambda self: world.rank()
+        PGWrapper.get_rank = lambda self: world.grank(getattr(self, "pg", None))
         PGWrapper.get_world_size = lambda self: world.W
         PGWrapper.barrier = lambda self: (world.collective("barrier", None, pg=getattr(self, "pg", None)), None)[1]
         PGWrapper.broadcast_object_list = bcast
